@@ -177,6 +177,62 @@ pub fn strategy() -> BoxedStrategy<Case> {
         .boxed()
 }
 
+/// Third generator: a *dense block* of more identifiers in use than the send window is wide. All
+/// eight local publish slots are QoS 2 exchanges waiting for PUBCOMP (ids 1..8), 1-7 SUBSCRIBE /
+/// UNSUBSCRIBE requests (outside the publish quota) are unacknowledged behind them, then the counter
+/// is burnt once around so that it lands in front of / inside the block, and new SUBSCRIBE /
+/// UNSUBSCRIBE requests must skip all of it.
+pub fn dense_block() -> BoxedStrategy<Case> {
+    (1usize..8, -3i32..14, 1usize..5, any::<bool>(), prop::collection::vec(any::<bool>(), 7), 0usize..3)
+        .prop_map(|(j, off, fresh_ops, resume, kinds, acked_subs)| {
+            let so = SubOpts { qos: 1, no_local: false, rap: false, retain_handling: 0 };
+            let mut steps: Vec<Step> = Vec::new();
+            for i in 0..8u8 {
+                steps.push(Step::Publish(PubSpec::simple(2, 2, 1, i)));
+            }
+            // PUBREC for all eight: the client answers with PUBRELs and waits for the PUBCOMPs
+            steps.push(Step::Broker(BrokerAct::AckAll { reverse: false }));
+            steps.push(Step::PollIdle { max: 40 });
+            for i in 0..j {
+                if kinds[i] {
+                    steps.push(Step::Subscribe { filters: vec![(TopicSpec::new(3, i as u8), so)], props: vec![], cancel: None });
+                } else {
+                    steps.push(Step::Unsubscribe { filters: vec![TopicSpec::new(3, 40 + i as u8), TopicSpec::new(2, i as u8)], props: vec![], cancel: None });
+                }
+            }
+            // some of the oldest SUBSCRIBE/UNSUBSCRIBE requests are acknowledged (holes in the block)
+            for _ in 0..acked_subs.min(j.saturating_sub(1)) {
+                steps.push(Step::Broker(BrokerAct::Ack { which: (8u32 * 65536 / (8 + j as u32) + 1) as u16, reason: 0, form: AckForm::Short }));
+                steps.push(Step::PollIdle { max: 4 });
+            }
+            let n = (65535i64 - (8 + j as i64) - 1 + off as i64).max(0) as u32;
+            steps.push(Step::Burn { n });
+            let mut tail: Vec<Step> = Vec::new();
+            for i in 0..fresh_ops {
+                if (i + j) % 2 == 0 {
+                    tail.push(Step::Unsubscribe { filters: vec![TopicSpec::new(3, 90 + i as u8)], props: vec![], cancel: None });
+                } else {
+                    tail.push(Step::Subscribe { filters: vec![(TopicSpec::new(3, 80 + i as u8), so)], props: vec![], cancel: None });
+                }
+            }
+            tail.push(Step::PollIdle { max: 10 });
+            tail.push(Step::Broker(BrokerAct::AckAll { reverse: false }));
+            tail.push(Step::PollIdle { max: 40 });
+            tail.push(Step::Publish(PubSpec::simple(1, 2, 2, 77)));
+            tail.push(Step::Broker(BrokerAct::AckAll { reverse: true }));
+            tail.push(Step::PollIdle { max: 40 });
+            let connect = ConnectSpec::default();
+            let conns = if resume {
+                vec![ConnScript { connect: connect.clone(), steps, end: EndHow::Drop }, ConnScript { connect, steps: tail, end: EndHow::Drop }]
+            } else {
+                steps.extend(tail);
+                vec![ConnScript { connect, steps, end: EndHow::Drop }]
+            };
+            Case { cfg: Cfg { rx: 128, tx: 2048, ..Cfg::default() }, broker: BrokerMode::Scripted, conns }
+        })
+        .boxed()
+}
+
 pub fn run(ctx: &Ctx) -> i32 {
     let cases = ctx.tier.pick(8_000, 300_000);
     let pre = crate::props::scen::replay_saved(ctx, "C07", &|st, _| st.wraps_with_inflight > 0);
@@ -208,6 +264,15 @@ pub fn run(ctx: &Ctx) -> i32 {
         Eval { nontrivial: stats.resumed_with_inflight > 0, classes, violations, watchdog: trace.watchdog }
     });
     agg.merge(multi);
+    let dense = run_prop(ctx, "case", 16, ctx.tier.pick(2_000, 60_000), dense_block, |case: &Case| {
+        let (violations, stats, trace) = eval_case(case);
+        let mut classes = vec!["dense-block-of-9-to-15-identifiers-in-use"];
+        if stats.wraps_with_inflight > 0 {
+            classes.push("wrapped-with-operations-in-flight");
+        }
+        Eval { nontrivial: stats.wraps_with_inflight > 0, classes, violations, watchdog: trace.watchdog }
+    });
+    agg.merge(dense);
     let pre_failed = pre.failure.clone();
     agg.merge(pre);
     if pre_failed.is_some() {
@@ -218,7 +283,7 @@ pub fn run(ctx: &Ctx) -> i32 {
         agg,
         Report {
             level: "exploration",
-            rule: "each case: a Receive Maximum of 1-7 filled with long-lived QoS 1/2 publishes (some held between PUBREC and PUBCOMP) plus 0-4 SUBSCRIBE/UNSUBSCRIBE in flight, then a burn of 65535*w + offset identifier allocations (locally refused publishes; w in {1,2}, offset chosen so the counter lands on/around the identifiers still in use), optionally a resumed reconnect or a preceding fresh session, then a generated tail of new operations and acks; oracle = every identifier-bearing outbound packet has id != 0 and id not in the model's in-flight set of the session (QoS 2 until PUBCOMP). Non-trivial = a new identifier is smaller than its predecessor (counter wrapped) while at least one operation is still in flight; distinct = distinct case value. Second generator: generic histories of 2-6 connections with 30 % rejected / garbled / cut / cancelled handshakes and resumed sessions (non-trivial = a resumed connection with operations in flight), same oracle.".into(),
+            rule: "each case: a Receive Maximum of 1-7 filled with long-lived QoS 1/2 publishes (some held between PUBREC and PUBCOMP) plus 0-4 SUBSCRIBE/UNSUBSCRIBE in flight, then a burn of 65535*w + offset identifier allocations (locally refused publishes; w in {1,2}, offset chosen so the counter lands on/around the identifiers still in use), optionally a resumed reconnect or a preceding fresh session, then a generated tail of new operations and acks; oracle = every identifier-bearing outbound packet has id != 0 and id not in the model's in-flight set of the session (QoS 2 until PUBCOMP). Non-trivial = a new identifier is smaller than its predecessor (counter wrapped) while at least one operation is still in flight; distinct = distinct case value. Third generator: all eight publish slots are QoS 2 exchanges waiting for PUBCOMP, 1-7 SUBSCRIBE/UNSUBSCRIBE (outside the publish quota) unacknowledged behind them with holes, i.e. 9-15 identifiers in use in one block, the counter burnt once around onto it, then new SUBSCRIBE/UNSUBSCRIBE requests (same oracle). Second generator: generic histories of 2-6 connections with 30 % rejected / garbled / cut / cancelled handshakes and resumed sessions (non-trivial = a resumed connection with operations in flight), same oracle.".into(),
             assumptions: vec![
                 "identifier allocations are observed only through the wire; the burn relies on refused publishes consuming identifiers (if they do not, the non-trivial count drops to zero instead of raising an alarm)".into(),
                 "conformant scripted broker".into(),
